@@ -965,7 +965,17 @@ class Segment(Geodesic):
         # (when an endpoint is lightlike), so use the larger one. This
         # stays valid when the difference of the two representatives is
         # itself lightlike.
-        disc = np.sqrt(a12 * a12 - a11 * a22)
+        #
+        # a12^2 - a11 a22 cancels catastrophically when the endpoints
+        # are close to each other. By Lagrange's identity (the form is
+        # diagonal) it is the signed sum of the squares of the 2x2
+        # minors of end_data, which are small themselves.
+        form_diag = np.diagonal(minkowski(dim, base_ring=base_ring))
+        u, v = end_data[..., 0, :], end_data[..., 1, :]
+        minors = (u[..., :, np.newaxis] * v[..., np.newaxis, :] -
+                  u[..., np.newaxis, :] * v[..., :, np.newaxis])
+        signs = -form_diag[:, np.newaxis] * form_diag[np.newaxis, :]
+        disc = np.sqrt((signs * minors * minors).sum(axis=(-1, -2)) / 2)
 
         def null_vector(sign):
             s1, t1 = -a12 + sign * disc, a11
